@@ -77,6 +77,16 @@ func (c ColNullable[T]) EncodeState(b *Buffer) {
 	}
 }
 
+// Prepare implements Preparable, forwarding to values (e.g. Nullable(Enum8)).
+func (c *ColNullable[T]) Prepare() error {
+	if v, ok := c.Values.(Preparable); ok {
+		if err := v.Prepare(); err != nil {
+			return errors.Wrap(err, "prepare values")
+		}
+	}
+	return nil
+}
+
 func (c ColNullable[T]) Type() ColumnType {
 	return ColumnTypeNullable.Sub(c.Values.Type())
 }
